@@ -17,9 +17,13 @@ CHECKS = {
  "C08": ("model_checking", "At the end of recorded histories the harness merges sets of <= 4 data at a fresh observer in every order and two groupings; TLC compares the distinct outcomes pairwise with Props!C08 (same knowledge; equal modulo senders without streams).", "TLA+ trace validation of observer-merge events; invariant Props!C08"),
  "C09": ("model_checking", "TLC checks bag inclusion of the results (by content id) of previous and current data in the output of every successful recorded run.", "TLA+ trace validation; invariant Props!C09"),
  "C10": ("model_checking", "TLC evaluates the independent recursive-descent reader AirData!WF on every trace the real code produced (runs and observer merges).", "TLA+ trace validation; invariant AirData!WF"),
+ "C16": ("model_checking", "Every request any host receives in recorded histories of fragment scripts is checked by TLC (TraceNet!InvC16) for bag inclusion in the calls of the independent sequential evaluator SeqSem (same peer, service, function, argument values).", "TLA+ trace validation against the sequential reference evaluator SeqSem.tla"),
+ "C17": ("model_checking", "The tetraplets of every request are compared by TLC (TraceNet!InvC17) with the provenance SeqSem predicts for the argument expressions (producer triplet, exact lens); one recorded deviation (functor .length) is classified inside the invariant and listed in known_findings.json.", "TLA+ trace validation against SeqSem provenance"),
+ "C16": ("model_checking", "Every request any host receives in recorded histories of fragment scripts is checked by TLC (TraceNet!InvC16) for bag inclusion in the calls of the independent sequential evaluator SeqSem (same peer, service, function, argument values).", "TLA+ trace validation against the sequential reference evaluator SeqSem.tla"),
+ "C17": ("model_checking", "The tetraplets of every request are compared by TLC (TraceNet!InvC17) with the provenance SeqSem predicts for the argument expressions (producer triplet, exact lens); one recorded deviation (functor .length) is classified inside the invariant and listed in known_findings.json.", "TLA+ trace validation against SeqSem provenance"),
  "C19": ("model_checking", "TLC checks on every recorded run: next peers without self/duplicates, new sent-marks imply forwarding, new canon results attributed to the running peer; at quiescence of join-free scripts the observer's merge holds no sent-mark.", "TLA+ trace validation; invariants Props!C19b/cWeak/aCanon/d"),
  "C20": ("model_checking", "Every recorded run is executed twice on the real code; TLC checks equality of code, message, canonical data digest, requests, next-peer set and flags.", "TLA+ trace validation; re-execution probe; invariant Props!C20"),
- "C27": ("exploration", "After every recorded run the produced data, request map and result map are re-encoded and decoded by the real codecs; TLC checks the round-trip facts (Props!C27).", "TLA+ trace validation; recode probe; invariant Props!C27"),
+ "C27": ("model_checking", "After every recorded run the produced data, request map and result map are re-encoded and decoded by the real codecs; TLC checks the round-trip facts (Props!C27).", "TLA+ trace validation; recode probe; invariant Props!C27"),
 }
 
 NOT_YET = {
@@ -29,8 +33,6 @@ NOT_YET = {
  "C13": "needs the model's stream contents as oracle (stage 2); not built yet",
  "C14": "Adversary layer not built yet",
  "C15": "Adversary layer (fork pairs) not built yet",
- "C16": "SeqSem oracle not built yet",
- "C17": "SeqSem provenance oracle not built yet",
  "C18": "failure-kind generator not built yet",
  "C21": "function-level specification not built yet",
  "C22": "function-level specification not built yet",
